@@ -34,7 +34,7 @@ CONSTS = {
 
 
 def run(out, tier):
-    k = CONSTS[tier]
+    k = c02.pick(CONSTS, tier)
     C.build_lib("hooks")
     exe = C.build_harness("xmltok_harness")
     res, summ, cnt, p = c02.run_gen(out, "c03", k["gen"], exe)
